@@ -519,11 +519,7 @@ def normal(children, preserved=False, lead=(), declaration_as_pi=False):
             else:
                 out.append(("special", type(c).__name__, s if preserved else collapse(s)))
             if isinstance(c, Doctype):
-                # a newline follows a doctype (one: none is added to text that already starts with one)
-                nxt = children[i + 1] if i + 1 < len(children) else None
-                if not (nxt is not None and not isinstance(nxt, Tag) and CLASS_ID[type(nxt)] in TEXT_CLASSES
-                        and str.__str__(nxt).startswith("\n")):
-                    pending.append("\n")
+                pending.append("\n")          # a newline follows a doctype
     flush()
     return tuple(out)
 
